@@ -472,6 +472,36 @@ pub fn real_asserts(prop: &str, case: &Case, real: &Obs, all: &dyn Fn(&str, &str
             if real.panic.is_none() && real.live_after != leaked {
                 return Some(format!("{} value(s) still alive after the result was dropped ({} lost during the parse)", real.live_after, leaked));
             }
+            // fixed-size collections built differently: through the boxed container impls, and with a zero-sized item
+            // type that has a destructor (cleanup code walking a pointer range sees an empty range)
+            if case.more.is_empty() && (case.gj.to_string().contains("\"exact\"") || case.gj.to_string().contains("\"grouparr\"")) {
+                if !matches!(case.kind.as_str(), "static" | "staticc") {
+                    crate::build::VARIANT.with(|c| c.set(1));
+                    let boxed = crate::run::run_case_as(case, &case.kind, &case.ety, &case.mode);
+                    crate::build::VARIANT.with(|c| c.set(0));
+                    if let Ok(b) = boxed {
+                        let key = |o: &Obs| (o.ok, o.out.clone(), o.errs.clone(), o.panic.is_some(), o.live_after, o.live_with_result - o.tracks_in_output, o.double_drops);
+                        if key(&b) != key(real) {
+                            return Some(format!("collect_exactly into Box<[T; N]> behaves differently from [T; N]: (ok, out, errs, panic, alive after, lost, double drops) = {:?} vs {:?}", key(&b), key(real)));
+                        }
+                    }
+                    crate::build::ZLIVE.with(|c| c.set(0));
+                    crate::build::ZNEG.with(|c| c.set(false));
+                    crate::build::VARIANT.with(|c| c.set(2));
+                    let z = crate::run::run_case_as(case, &case.kind, &case.ety, &case.mode);
+                    crate::build::VARIANT.with(|c| c.set(0));
+                    if let Ok(z) = z {
+                        let zlive = crate::build::ZLIVE.with(|c| c.get());
+                        let zneg = crate::build::ZNEG.with(|c| c.get());
+                        if z.ok != real.ok || z.panic.is_some() != real.panic.is_some() {
+                            return Some(format!("with zero-sized item outputs the grammar accepts = {} (panic = {}), with ordinary outputs {} ({})", z.ok, z.panic.is_some(), real.ok, real.panic.is_some()));
+                        }
+                        if z.panic.is_none() && (zlive != 0 || zneg) {
+                            return Some(format!("zero-sized outputs with a destructor: {} still alive after the result was dropped{}", zlive, if zneg { ", some dropped twice" } else { "" }));
+                        }
+                    }
+                }
+            }
             if case.mode == "C" && real.created != 0 {
                 // values built in check mode are allowed only below combinators that need them
                 return None;
